@@ -1,6 +1,6 @@
 (* C02 driver: runs the extracted model on call histories.
    stdin, one case per line:
-     <cfg6bits> <BUF> <eager> | <raw>;<raw>.. | <field>;<field>.. | <call>;<call>..
+     <cfg7bits> <BUF> <eager> | <raw>;<raw>.. | <field>;<field>.. | <call>;<call>..
        raw   = enc(r|b|t),size,sgn(0|1),foff,hexbytes
        field = R,<raw> | P,<in>,<shift> | L,<in>,<m>,<b> | B,<in>,<bitnum>,<numbits> | M,<a>,<b>
        call  = g,<f>,<start|H>,<n> | s,<f>,<off>,<S|C|E> | t,<f> | c,<f|*> | a,<raw> | r
@@ -80,7 +80,7 @@ let () =
            | [bits; buf; eager] ->
                let b i = bits.[i] = '1' in
                let c = { fix_bz_rewind = b 0; fix_bz_eof = b 1; fix_here = b 2; fix_text_pseudo = b 3;
-                         fix_leak = b 4; fix_negseek = b 5 } in
+                         fix_leak = b 4; fix_negseek = b 5; fix_phase_sign = b 6 } in
                let bUF = z_of_int (int_of_string buf) in
                let dec = dec_bz2 bUF (eager = "1") in
                let d = { d_cfg = c; d_raws = List.map parse_raw (split ';' (String.trim raws));
